@@ -343,5 +343,48 @@ def run(tier, seed):
                          {'kind': 'proof-or-correspondence', 'year': year,
                           'theorem_or_correspondence': [o[0] for o in failed], 'detail': [o[2] for o in failed][:3]},
                          found=False)
+    # every form of a year that figures tax does so with THAT year's figure_tax (a stale import from another year's module is silent otherwise)
+    import importlib
+    import pkgutil
+    sys.path.insert(0, REPO)
+    try:
+        for year in common.YEARS:
+            pkg = importlib.import_module('habutax.forms.ty%d' % year)
+            own = importlib.import_module('habutax.forms.ty%d.f1040_figure_tax' % year)
+            n_users = 0
+            for mi in pkgutil.iter_modules(pkg.__path__):
+                if mi.name == 'f1040_figure_tax':
+                    continue
+                try:
+                    mod = importlib.import_module('habutax.forms.ty%d.%s' % (year, mi.name))
+                except Exception:  # noqa
+                    continue
+                for attr in ('figure_tax', 'figure_tax_table', 'figure_tax_worksheet'):
+                    fn = getattr(mod, attr, None)
+                    if fn is None:
+                        continue
+                    n_users += 1
+                    ck.count((year, mi.name, attr), nontrivial=True)
+                    if fn is not getattr(own, attr, None):
+                        import habutax.enum as henum
+                        fs = list(henum.filing_status_2021 if year == 2021 else henum.filing_status)
+                        witness = None
+                        if attr == 'figure_tax':
+                            for amt in (50025.0, 87150.0, 120000.0, 250000.0):
+                                try:
+                                    if fn(amt, fs[0]) != own.figure_tax(amt, fs[0]):
+                                        witness = {'amount': amt, 'status': fs[0].name, 'used': fn(amt, fs[0]), 'statutory_for_the_year': own.figure_tax(amt, fs[0])}
+                                        break
+                                except Exception:  # noqa
+                                    pass
+                        ck.violation('C07:%d:%s.%s' % (year, mi.name, attr),
+                                     'ty%d %s figures tax with %s.%s, not with the %d schedule%s' % (
+                                         year, mi.name, getattr(fn, '__module__', '?'), attr, year,
+                                         (': for %s %.2f it gives %.2f where the %d schedule gives %.2f' % (
+                                             witness['status'], witness['amount'], witness['used'], year, witness['statutory_for_the_year'])) if witness else ''),
+                                     dict(witness or {}, kind='failing-input', year=year, module=mi.name, function=getattr(fn, '__module__', '?')), found=True)
+            ck.oblige('every ty%d form that figures tax uses the %d figure_tax (%d uses)' % (year, year, n_users), n_users > 0)
+    finally:
+        sys.path.remove(REPO)
     ck.audit_sources()
     return ck.finish()
